@@ -86,6 +86,10 @@ def conc_scenarios(tier, rng):
             if alpha[a]["op"] == "add" and alpha[b]["op"] == "add":
                 continue   # ids unique among resting orders
             scs.append({"init": BOOK3, "progs": [[alpha[a]], [alpha[b]]]})
+    # the price-move / replace paths and a snapshotting reader against the main writers
+    for x in [Move(3, PRICE + 1), Replace(1, PRICE, 2), Upq(2, PRICE + 1, 1), SNAPSHOT]:
+        for y in [Match(2), Match(9), Cancel(1), Amend(1, 1), Add(S(4, 2))]:
+            scs.append({"init": BOOK3, "progs": [[x], [y]]})
     # two calls per thread: curated, around the hand-over windows
     two = [
         [[Match(2), Add(S(4, 2))], [Amend(1, 1), Cancel(2)]],
